@@ -15,7 +15,7 @@ RUNS = {
         {"name": "K6-client-io", "mode": "kneg", "budget": (1500, 30000), "nontrivial": r"ok=1", "keyfn": "generic"},
     ],
     "C12": [
-        {"name": "K6-version", "mode": "kver", "budget": (3000, 60000), "nontrivial": r"ok=1|rmsize=[1-9]", "keyfn": "generic"},
+        {"name": "K6-version", "mode": "kver", "budget": (10000, 60000), "nontrivial": r"ok=1|rmsize=[1-9]", "keyfn": "generic"},
         {"name": "K6-negotiate", "mode": "kneg", "budget": (1500, 30000), "nontrivial": r"ok=1", "keyfn": "generic"},
         {"name": "K6-renegotiate", "mode": "kmsz", "budget": (300, 10000), "nontrivial": r"ann2=", "keyfn": "generic"},
     ],
@@ -28,18 +28,18 @@ RUNS = {
         {"name": "K3-segmentation", "mode": "k3", "budget": (120, 3000), "nontrivial": r"recv\d+=(msg|proto)", "keyfn": "generic"},
     ],
     "C04": [
-        {"name": "K4-session", "mode": "k4", "budget": (6000, 150000), "nontrivial": r"^rtyp=(?!7 )", "keyfn": "k4"},
+        {"name": "K4-session", "mode": "k4", "budget": (12000, 150000), "nontrivial": r"^rtyp=(?!7 )", "keyfn": "k4"},
     ],
     "C05": [
-        {"name": "K4-session-lifecycle", "mode": "k4", "budget": (6000, 150000), "nontrivial": r"close=|^rtyp=(?!7 )", "keyfn": "k4", "monitor": "lifecycle"},
+        {"name": "K4-session-lifecycle", "mode": "k4", "budget": (12000, 150000), "nontrivial": r"close=|^rtyp=(?!7 )", "keyfn": "k4", "monitor": "lifecycle"},
         {"name": "K7-concurrent-lifecycle", "mode": "k7storm", "budget": (60, 2500), "nontrivial": r".", "keyfn": "generic"},
         {"name": "K7-scenarios", "mode": "k7scen", "budget": (8, 150), "nontrivial": r".", "keyfn": "k7scen"},
     ],
     "C09": [
-        {"name": "K4-session-names", "mode": "k4", "budget": (6000, 150000), "nontrivial": r" c\d+=", "keyfn": "k4", "monitor": "names"},
+        {"name": "K4-session-names", "mode": "k4", "budget": (12000, 150000), "nontrivial": r" c\d+=", "keyfn": "k4", "monitor": "names"},
     ],
     "C15": [
-        {"name": "K4-session-faults", "mode": "k4", "budget": (6000, 150000), "nontrivial": r"r:Error=(14|5|2|13|17|20|28|30|11|39|61)\b", "keyfn": "k4", "monitor": "lifecycle"},
+        {"name": "K4-session-faults", "mode": "k4", "budget": (12000, 150000), "nontrivial": r"r:Error=(14|5|2|13|17|20|28|30|11|39|61)\b", "keyfn": "k4", "monitor": "lifecycle"},
         {"name": "K7-scenarios", "mode": "k7scen", "budget": (8, 150), "nontrivial": r".", "keyfn": "k7scen"},
     ],
     "C13": [
@@ -57,14 +57,14 @@ RUNS = {
         {"name": "K7-reply-content-under-concurrency", "mode": "k7tags", "budget": (90, 2000), "nontrivial": r"missing=0", "keyfn": "generic"},
     ],
     "C19": [
-        {"name": "K8-readdir", "mode": "k19", "budget": (250, 6000), "nontrivial": r"pages=([3-9]|\d\d)", "keyfn": "generic"},
+        {"name": "K8-readdir", "mode": "k19", "budget": (600, 6000), "nontrivial": r"pages=([3-9]|\d\d)", "keyfn": "generic"},
     ],
     "C03": [
-        {"name": "K6-client-server", "mode": "kcs", "budget": (2400, 60000), "nontrivial": r" c0=", "keyfn": "kcs"},
+        {"name": "K6-client-server", "mode": "kcs", "budget": (6000, 60000), "nontrivial": r" c0=", "keyfn": "kcs"},
     ],
     "C10": [
-        {"name": "K6-pool", "mode": "kpool", "budget": (3000, 100000), "nontrivial": r"x", "keyfn": "generic"},
-        {"name": "K6-mux", "mode": "kmux", "budget": (600, 15000), "nontrivial": r".", "keyfn": "generic"},
+        {"name": "K6-pool", "mode": "kpool", "budget": (10000, 100000), "nontrivial": r"x", "keyfn": "generic"},
+        {"name": "K6-mux", "mode": "kmux", "budget": (1500, 15000), "nontrivial": r".", "keyfn": "generic"},
         {"name": "K6-fid-in-flight", "mode": "kmuxfid", "budget": (60, 2000), "nontrivial": r"formed=1", "keyfn": "generic"},
     ],
     "C06": [
@@ -94,7 +94,7 @@ RUNS = {
         {"name": "K4-session-race", "mode": "k4", "budget": (0, 9000), "nontrivial": r"^rtyp=(?!7 )", "keyfn": "k4", "race": True, "tiers": ["thorough"]},
     ],
     "C08": [
-        {"name": "K5-path-coherence", "mode": "k5", "budget": (5000, 120000), "nontrivial": r"^rtyp=(75|21|77|123) |^ok=1", "keyfn": "k5"},
+        {"name": "K5-path-coherence", "mode": "k5", "budget": (12000, 120000), "nontrivial": r"^rtyp=(75|21|77|123) |^ok=1", "keyfn": "k5"},
     ],
     "C02": [
         {"name": "K2-framing", "mode": "k2", "budget": (1500, 40000), "nontrivial": r"recv\d+=(msg|proto)", "keyfn": "k2"},
